@@ -77,6 +77,21 @@ func c06Judge(p *route.Parser, s string) (bad, kind, class string) {
 	if ast == nil && err == nil {
 		return "Parse returned neither a route nor an error", "neither-route-nor-error", ""
 	}
+	// parsing is a function of the string: the same string again, on the same parser, right away
+	{
+		var ast2 *route.Route
+		var err2 error
+		func() {
+			defer func() { pan = recover() }()
+			ast2, err2 = p.Parse(s)
+		}()
+		if pan != nil {
+			return fmt.Sprintf("Parse panicked on the second call with the same string: %v", pan), "panic", ""
+		}
+		if (err == nil) != (err2 == nil) || (err == nil && !refEqual(astToRef(ast), astToRef(ast2))) {
+			return fmt.Sprintf("parsing the same string twice in a row gives different results (first error: %v, second error: %v)", err, err2), "depends-on-earlier-calls", ""
+		}
+	}
 	// (participle hands back the partial AST next to an error; by Go convention the error is the
 	// result then, and that is how the router treats it)
 	want, accept, determined := ref.Parse(s)
@@ -422,6 +437,7 @@ func c06Replay(raw json.RawMessage) (bool, string) {
 		}
 	}
 	p, _ := route.NewParser()
+	_, _ = p.Parse("/warm/{up: /[a-z]+/}") // the enumeration never runs on a parser without history either
 	bad, _, _ := c06Judge(p, in)
 	return bad != "", bad
 }
